@@ -156,3 +156,28 @@ Proof.
   - apply (rsum_error_max td Ft Ht _ k Fd). apply Rmax_r.
   - intros Fs HG. apply (guard_R len mdfe d Fl Fd Fs) in HG. unfold d, k in HG. congruence.
 Qed.
+
+(* sharper: only the LAST addition can leave (0, len]; the k-1 before it cost
+   half an ulp of len each, the last one half an ulp of its own result *)
+Theorem first_rejected_sum_step (len mdfe td : F64) (ds : list F64) :
+  fin len -> fin td -> 0 < B2R td -> dists_ok ops64 len mdfe td ds ->
+  let k := length ds in
+  let d := rsum ops64 td td k in
+  fin d ->
+  Rabs (B2R d - INR (S k) * B2R td)
+    <= INR (Nat.pred k) * (/ 2 * ulp64 (B2R len)) + (match k with O => 0 | S _ => / 2 * ulp64 (B2R d) end).
+Proof.
+  intros Fl Ft Ht Hok k d Fd. unfold d, k in *. clear d k.
+  destruct (length ds) as [|j] eqn:El.
+  - cbn [rsum Nat.pred INR]. replace (B2R td - 1 * B2R td) with 0 by ring. rewrite Rabs_R0. lra.
+  - assert (Hj : (j < length ds)%nat) by lia.
+    destruct (tick_distance_error len mdfe td ds Fl Hok j Hj) as (_ & _ & Hd & Fj & _ & Ej).
+    cbn zeta in Hd. rewrite Hd in Fj, Ej. rewrite rsum_S in *. cbn [ops64 f_add Nat.pred] in *.
+    rewrite (add_R _ _ Fj Ft Fd).
+    set (x := B2R (rsum ops64 td td j) + B2R td).
+    pose proof (RN_err x) as He.
+    replace (round radix2 fexp64 (round_mode mode_NE) x - INR (S (S j)) * B2R td)
+      with ((round radix2 fexp64 (round_mode mode_NE) x - x) + (B2R (rsum ops64 td td j) - INR (S j) * B2R td))
+      by (unfold x; rewrite (S_INR (S j)); ring).
+    eapply Rle_trans; [apply Rabs_triang|]. lra.
+Qed.
